@@ -180,7 +180,12 @@ def spec_build_objs(parallel):
         # a stale q_task of a top-level object is allowed: such an object has HASTASK but is not in flight)
         c.assume(z3.SetIntersect(w.inflight, set_of(topo)) == EMPTY)
         g = Graph(topo, nodes)
-        STATE_GLOB['g'].update({'dep_graph': g, 'builder': _Opaque('builder'), 'compiler': _Opaque('compiler'),
+        class LibTok:
+            # the enclosing Lib instance (closure variable `self`): the objects listed in the library are an ARBITRARY
+            # list - the dependency graph may hold objects resolved through the builder's source directories as well
+            objs = SSeq(T, c.fresh(VL, 'lib_objs'), 'list')
+        c.assume(all_objs(LibTok.objs.t))
+        STATE_GLOB['g'].update({'self': LibTok, 'dep_graph': g, 'builder': _Opaque('builder'), 'compiler': _Opaque('compiler'),
                           'logger': _Opaque('logger'), 'force': mk_bool(c.fresh(z3.BoolSort(), 'force')),
                           'include_dirs': None})
         env = {'w': w, 'topo': topo, 'nodes': nodes, 'inflight0': w.inflight, 'hastask0': w.hastask}
